@@ -401,7 +401,7 @@ fn cmd_shrink(args: &[String]) -> i32 {
         println!("shrink: file depends on earlier worlds of its process; the driver minimises the prefix instead");
         return 3;
     }
-    let mut sh = Shrinker { target: Target { property: prop.clone(), clause: clause.clone() }, evals: 0, max_evals: arg_u64(args, "--max-evals", 3000) as u32 };
+    let mut sh = Shrinker { target: Target { property: prop.clone(), clause: clause.clone() }, evals: 0, max_evals: arg_u64(args, "--max-evals", 6000) as u32 };
     if !sh.fails(&w, &s) {
         println!("shrink: input does not reproduce in-process");
         return 3;
